@@ -36,6 +36,11 @@ def random_tree(rng, size, max_depth=30, names=None, text_alph=ALPH, p_ns=0.25, 
             n.add_attribute(ustr(rng, 5, text_alph), ustr(rng, 8, text_alph))
         for _ in range(rng.choice([1, 2]) if rng.random() < p_extras else 0):
             n.add_extras(ustr(rng, 5, text_alph), ustr(rng, 8, text_alph))
+        if rng.random() < p_extras / 2:
+            # keys the XML importer itself produces for qualified attributes: prefix:local and Clark notation {uri}local
+            uri = rng.choice(URIS + ["http://www.w3.org/XML/1998/namespace"])
+            n.add_extras(rng.choice(["{" + uri + "}" + rng.choice(["lang", "id", "x"]), rng.choice(PREFIXES + ["xml"]) + ":" + rng.choice(["lang", "id", "x"])]),
+                         ustr(rng, 6, text_alph))
         if rng.random() < p_prefix:
             n.prefix = rng.choice(PREFIXES)
         if rng.random() < p_ns:
